@@ -401,6 +401,17 @@ def r5(cx, ast=None, rule="C08.R5"):
             if k == "call" and o.callee.name == "to_rust_string":
                 out.append(("<delegated>", payload_of(o.args[0], variant), o.bb)); continue
             r = fmt.render(body, du, sl, o) if k == "call" else None
+            if r is None and k == "stmt" and o.ops and o.ops[0].place is not None:
+                # the value comes back from a closure or helper written out in the view: look at the call that produced it
+                for kk, c in Slice(body, du).origins(o.ops[0]):
+                    if kk == "call" and c.bb in region:
+                        if c.callee.name == "to_rust_string":
+                            r = None; out.append(("<delegated>", payload_of(c.args[0], variant), o.bb)); break
+                        r = fmt.render(body, du, sl, c)
+                        if r is not None: break
+                else:
+                    pass
+                if out and out[-1][2] == o.bb and out[-1][0] == "<delegated>": continue
             if r is not None:
                 text, holes = r
                 rec = len(holes) == 1 and any(kk == "call" and c.callee.name == "to_rust_string" and c.bb in region and payload_of(c.args[0], variant)
